@@ -144,6 +144,24 @@ func robustStored(r *gen.R) bson.D {
 	return d
 }
 
+// robustArgFor biases the argument towards the shapes the operator parses (so the guards behind the
+// shape checks are reached), otherwise an arbitrary argument.
+func robustArgFor(r *gen.R, op string, depth int) interface{} {
+	if op == "$mod" && r.P(70) {
+		divs := []interface{}{0.5, -0.25, 5e-324, 1e-300, math.Copysign(0, -1), int32(0), int64(0), 0.0, math.NaN(), math.Inf(1), int64(math.MinInt64), int32(-1), 1.5, -9.3e18, 9.3e18, "a", nil}
+		rems := []interface{}{int32(0), 0.5, int64(math.MinInt64), math.NaN(), -0.5, int64(1), "x"}
+		a := bson.A{divs[r.N(len(divs))], rems[r.N(len(rems))]}
+		if r.P(10) {
+			a = append(a, int32(1))
+		}
+		return a
+	}
+	if (op == "$size" || strings.HasPrefix(op, "$bits")) && r.P(60) {
+		return robustExtremes[r.N(len(robustExtremes))]
+	}
+	return robustOpArg(r, depth)
+}
+
 func robustOpArg(r *gen.R, depth int) interface{} {
 	switch r.N(6) {
 	case 0:
@@ -185,11 +203,13 @@ func robustFilter(r *gen.R, depth int) bson.D {
 			m := 1 + r.N(2)
 			ops := make(bson.D, 0, m)
 			for j := 0; j < m; j++ {
-				ops = append(ops, bson.E{Key: robustQueryOps[r.N(len(robustQueryOps))], Value: robustOpArg(r, depth)})
+				qop := robustQueryOps[r.N(len(robustQueryOps))]
+				ops = append(ops, bson.E{Key: qop, Value: robustArgFor(r, qop, depth)})
 			}
 			d = append(d, bson.E{Key: robustKey(r), Value: ops})
 		case 3:
-			d = append(d, bson.E{Key: robustQueryOps[r.N(len(robustQueryOps))], Value: robustOpArg(r, depth)})
+			qop := robustQueryOps[r.N(len(robustQueryOps))]
+			d = append(d, bson.E{Key: qop, Value: robustArgFor(r, qop, depth)})
 		default:
 			d = append(d, bson.E{Key: robustKey(r), Value: robustValue(r, 1)})
 		}
